@@ -41,6 +41,7 @@ fn matmul_nbits(
         OpError::UnsupportedValue(match err {
             BlockQuantizedError::UnsupportedBlockSize => "Unsupported K block size",
             BlockQuantizedError::UnsupportedElementSize => "Unsupported bits-per-element",
+            BlockQuantizedError::ScalesShapeMismatch => "scales shape does not match B",
         })
     })?;
 
